@@ -315,6 +315,16 @@ class Ctx:
                 self.obligation("thm:%s" % n, ok, "axioms: %s" % ", ".join(axs))
                 if not ok:
                     self.broken.append("theorem %s depends on axioms %s" % (n, extra))
+        if self.tier == "thorough":
+            # independent re-check of the compiled library and everything it depends on
+            cmd = "coqchk -o -silent -Q . %s %s.%s" % (lib, lib, mod)
+            self.checker_cmds.append("cd coq/%s && %s" % (lib, cmd))
+            rc, out = sh(cmd, cwd=d, timeout=7200)
+            ok = rc == 0 and "* Axioms: <none>" in out and "type-in-type: <none>" in out and \
+                "unsafe (co)fixpoints: <none>" in out and "positivity is assumed: <none>" in out
+            self.obligation("coqchk:%s.%s" % (lib, mod), ok, "" if ok else tail(out, 15))
+            if not ok:
+                self.broken.append("coqchk does not accept %s.%s without axioms / unsafe flags" % (lib, mod))
         return names
 
     def coq_eval(self, lib, name, bodies, requires, timeout=900):
